@@ -4,11 +4,24 @@
 ; pathExtOK are uninterpreted (assumed contracts of findFile, isStdin and path/filepath).
 ; ---------------------------------------------------------------------------------------------
 (declare-fun findFileF (String) String)   ; the existing file <path>.<supported ext>, "" if there is none
-(declare-fun isStdinF (String) Bool)
+; AX findFile-def: findFileF p is an existing file p.<supported extension>, "" exactly if there is none
+(assert (forall ((p String)) (! (ite (forall ((e String)) (=> (not (= (fmtByName e) 0)) (fileMissing (str.++ p "." e))))
+                                     (= (findFileF p) "")
+                                     (exists ((e String)) (and (not (= (fmtByName e) 0)) (not (fileMissing (str.++ p "." e))) (= (findFileF p) (str.++ p "." e)))))
+                                :pattern ((findFileF p)))))
+; AX one-file-per-layer: the properties quantify over layouts in which each layer name is provided by exactly one file
+(assert (forall ((p String) (e1 String) (e2 String))
+  (! (=> (and (not (= (fmtByName e1) 0)) (not (= (fmtByName e2) 0))
+              (not (= (statE (str.++ p "." e1)) osErrNotExist)) (not (= (statE (str.++ p "." e2)) osErrNotExist))) (= e1 e2))
+     :pattern ((statE (str.++ p "." e1)) (statE (str.++ p "." e2))))))
+; AX osErrNotExist-is-an-error
+(assert ((_ is E) osErrNotExist))
 (declare-fun pathDir (String) String)
 (declare-fun pathBase (String) String)
 (declare-fun pathJoin (String String) String)
-(declare-fun extOK (String) Bool)         ; the path's extension is one of the supported formats
+(define-fun isStdinF ((p String)) Bool (= (trimSuffix (pathBase p) (pathExt p)) "-"))
+(define-fun extOf ((p String)) String (trimPrefix (pathExt p) "."))
+(define-fun extOK ((p String)) Bool (not (= (fmtByName (extOf p)) 0)))   ; the extension is one of the supported formats
 (declare-fun globRawS (String) SSlice)     ; filepath.Glob(pattern): the matching paths, in Glob's order
 (declare-fun globRawE (String) ErrV)
 (declare-fun evalSymlinksF (String) String) ; filepath.EvalSymlinks(path): the path with links resolved (= path if it is no link)
